@@ -202,6 +202,19 @@ func (r *checkRun) prepare() error {
 		}
 		r.native[p] = nb
 	}
+	// generated harnesses
+	if gp := filepath.Join(r.prop.Dir, "gen.json"); fileExists(gp) {
+		path, content, entries, err := generateRoundTrip(r.overlay, gp)
+		if err != nil {
+			return fmt.Errorf("harness generator: %v", err)
+		}
+		r.overlay[path] = content
+		r.native[path] = content
+		rel, _ := filepath.Rel(repoRoot, filepath.Dir(path))
+		r.files = append(r.files, &harnessFile{src: "generated", pkgDir: rel, content: content, entries: entries})
+		os.MkdirAll(filepath.Join(verifRoot, "out"), 0o755)
+		os.WriteFile(filepath.Join(verifRoot, "out", r.prop.ID+"_generated.go"), content, 0o644)
+	}
 	// replay test drivers
 	byPkg := map[string][]string{}
 	for _, hf := range r.files {
@@ -225,6 +238,11 @@ func (r *checkRun) prepare() error {
 		r.native[filepath.Join(repoRoot, dir, "zz_verif_replay_test.go")] = []byte(sb.String())
 	}
 	return nil
+}
+
+func fileExists(p string) bool {
+	_, err := os.Stat(p)
+	return err == nil
 }
 
 func packageNameOf(dir string) (string, error) {
@@ -323,8 +341,14 @@ func (r *checkRun) run() int {
 			fatal(fmt.Errorf("package %s not loaded", hf.pkgDir))
 		}
 		for _, entry := range hf.entries {
-			if r.only != "" && !strings.Contains(entry, r.only) {
-				continue
+			if r.only != "" {
+				if strings.HasPrefix(r.only, "VerifHarness_") {
+					if entry != r.only {
+						continue
+					}
+				} else if !strings.Contains(entry, r.only) {
+					continue
+				}
 			}
 			fn := sp.Func(entry)
 			if fn == nil {
@@ -441,6 +465,10 @@ func (r *checkRun) run() int {
 			reproduced = cv.replay.Result == "panic"
 		default:
 			reproduced = cv.replay.Result == "violated" && cv.replay.Label == cv.v.Label
+			// a native crash (fatal error, uncaught panic) reproduces any no-panic / allocation obligation
+			if cv.replay.Result == "panic" && (strings.HasSuffix(cv.v.Label, "no-panic") || strings.Contains(cv.v.Label, "alloc")) {
+				reproduced = true
+			}
 		}
 		if !reproduced {
 			r.engineFail = append(r.engineFail, fmt.Sprintf("ENGINE-MISMATCH: %s %s|%s not reproduced natively (native result=%s label=%s detail=%s) cex=%s",
